@@ -90,6 +90,8 @@ type BlobberUpdate struct {
 	WritePrice    *currency.Coin
 	ServiceCharge *float64
 	NumDelegates  *int
+	// DelegateWallet names another delegate wallet (id) for the blobber.
+	DelegateWallet *string
 	NotAvailable  *bool
 	IsRestricted  *bool
 	URL           *string
@@ -111,8 +113,8 @@ func (w *World) UpdateBlobberSettings(from *sim.Wallet, pr *Provider, u BlobberU
 	if u.ReadPrice != nil || u.WritePrice != nil {
 		in.Terms = &dto.Terms{ReadPrice: u.ReadPrice, WritePrice: u.WritePrice}
 	}
-	if u.ServiceCharge != nil || u.NumDelegates != nil {
-		in.StakePoolSettings = &dto.Settings{ServiceChargeRatio: u.ServiceCharge, MaxNumDelegates: u.NumDelegates}
+	if u.ServiceCharge != nil || u.NumDelegates != nil || u.DelegateWallet != nil {
+		in.StakePoolSettings = &dto.Settings{ServiceChargeRatio: u.ServiceCharge, MaxNumDelegates: u.NumDelegates, DelegateWallet: u.DelegateWallet}
 	}
 	return w.call(from, "update_blobber_settings", in, 0)
 }
